@@ -143,6 +143,7 @@ theorem startHandler_tinv {s : S} (h : TInv s) (i : Nat) (k : HKind) :
   | quick => exact h.mono rfl rfl rfl rfl
   | slow => exact h.mono rfl rfl rfl rfl
   | stubborn r => exact h.mono rfl rfl rfl rfl
+  | aborter => exact doAbort_tinv (h.mono rfl rfl rfl rfl)
   | closer fa =>
     simp only []
     split
